@@ -81,3 +81,7 @@ Proof.
       * destruct k2; simpl in E2; try discriminate.
         destruct (stdDecls r) eqn:E3; try discriminate. inversion E2; subst. simpl. apply (IH2 l0 eq_refl).
 Qed.
+
+Lemma toplevel_preserved_and_shape : forall items pk ds,
+  stdParseFile items = Some (pk, ds) -> forkParse items = NPackage pk :: ds /\ fileShape (forkParse items) = true.
+Proof. intros items pk ds H. exact (conj (toplevel_preserved items pk ds H) (toplevel_accept_shape items pk ds H)). Qed.
